@@ -1082,7 +1082,7 @@ func init() {
 		run: func(c *Ctx) {
 			{
 				up := world.NewUpstream("c08conc")
-				concExplore(c, "C08", c08ConcScenarios(up), 1, 2)
+				concExplore(c, "C08", c08ConcScenarios(up), 1, 2, concEvery["C08"]...)
 				up.Close()
 			}
 			e := newC08Env(c)
@@ -1105,7 +1105,7 @@ func init() {
 			if json.Unmarshal(raw, &cr0) == nil && cr0.Kind == concKind {
 				up := world.NewUpstream("c08conc")
 				defer up.Close()
-				return concReplayOne(c, "C08", c08ConcScenarios(up), cr0)
+				return concReplayOne(c, "C08", c08ConcScenarios(up), cr0, concEvery["C08"]...)
 			}
 			var cs c08Case
 			if err := json.Unmarshal(raw, &cs); err != nil || cs.Source == "" {
